@@ -528,10 +528,10 @@ class Exec:
             return self.const_cache[key]
         k = re.search(r'promoted\[(\d+)\]$', s).group(0)
         fn_last = fn.name.split('::')[-1]
-        cands = [c for c in self.prog.consts_by_name.get(k, []) if c[4] == fn.crate and (c[0].endswith('::' + fn_last + '::' + k))]
+        cands = [c for c in self.prog.consts_by_name.get(k, []) if c[4] == fn.crate and (c[0].endswith('::' + fn_last + '::' + k) or c[0] == fn_last + '::' + k)]
         if not cands:
             meth = strip_generics(s).split('::')[-2]
-            cands = [c for c in self.prog.consts_by_name.get(k, []) if c[4] == fn.crate and c[0].endswith('::' + meth + '::' + k)]
+            cands = [c for c in self.prog.consts_by_name.get(k, []) if c[4] == fn.crate and (c[0].endswith('::' + meth + '::' + k) or c[0] == meth + '::' + k)]
         v = Opaque('promoted ' + s)
         if cands:
             c = min(cands, key=lambda c: abs(c[3] - fn.line))
@@ -852,7 +852,7 @@ class Exec:
                     pass
             v = self.const_value(c, fr.fn)
             if isinstance(v, Opaque):
-                if re.match(r'^[a-zA-Z_<].*', c) and ('::' in c or c[0] == '<') and not c.isupper():
+                if re.match(r'^[a-zA-Z_<].*', c) and ('::' in c or c[0] == '<') and not c.split('::')[-1].isupper():
                     # function item / zero-sized constant
                     return Agg('fnitem', (), c)
             return v
